@@ -10,6 +10,13 @@ from mc.explore import Acc, deviations
 from mc.observe import site_of
 from mc.spec import to_jsonable, from_jsonable
 
+
+def _int_limit():
+    import sys
+    n = sys.get_int_max_str_digits()
+    return n if n else float('inf')
+
+
 ID = 'C11'
 LEVEL = 'model_checking'
 
@@ -38,7 +45,7 @@ def expected(header):
     if m.group('opts'):
         for pair in m.group('opts').split(b', '):
             k, v = pair.split(b'=', 1)
-            if INT.fullmatch(v) and len(v) <= 4300:
+            if INT.fullmatch(v) and len(v) <= _int_limit():
                 vals = [int(v)]
             elif INT.fullmatch(v):
                 # CPython refuses to convert > 4300 digits by default: the
